@@ -6,16 +6,23 @@ written, every tree is first brought to one canonical spelling. Each rewrite is 
 
   C1  `pass` is dropped from bodies that have other statements
   C2  commutative operations with exactly one numeric-constant operand put the constant on the right
-      (x + 1, x * 2, x == 0, x != 0); a single comparison with the constant on the left is mirrored (0 < x  ->  x > 0)
+      (x + 1, x * 2, x == 0, x != 0); a single comparison with the constant on the left is mirrored (0 < x  ->  x > 0);
+      a single comparison between two non-constants is written with < or <= (a > b  ->  b < a)
   C3  `if not c: A else: B`  becomes  `if c: B else: A`   (plain if/else only; elif chains keep their order)
   C4  a temporary that is assigned once and immediately returned is inlined:  t = e; return t   ->   return e
   C5  keyword arguments of a call are ordered by name
+  C6  a local that is only ever assigned constants and never read is dropped (`_unused = None`)
+  C7  logging statements (`runLog.debug/extra/info/important/warning/error/header(...)` as a statement) are dropped: no rule
+      is about what is logged, and log lines come and go
 """
 from __future__ import annotations
 
 import ast
 
 _MIRROR = {ast.Lt: ast.Gt, ast.Gt: ast.Lt, ast.LtE: ast.GtE, ast.GtE: ast.LtE, ast.Eq: ast.Eq, ast.NotEq: ast.NotEq}
+
+
+_LOG_LEVELS = {"debug", "extra", "info", "important", "warning", "error", "header"}
 
 
 def _num(x):
@@ -37,6 +44,10 @@ class _Canon(ast.NodeTransformer):
     def visit_Compare(self, n):
         self.generic_visit(n)
         if len(n.ops) == 1 and type(n.ops[0]) in _MIRROR and _num(n.left) and not _num(n.comparators[0]):
+            n.left, n.comparators[0] = n.comparators[0], n.left
+            n.ops = [_MIRROR[type(n.ops[0])]()]
+        elif len(n.ops) == 1 and isinstance(n.ops[0], (ast.Gt, ast.GtE)) and not _num(n.left) and not _num(n.comparators[0]):
+            # neither side a numeric constant: one orientation only (a > b  is written  b < a)
             n.left, n.comparators[0] = n.comparators[0], n.left
             n.ops = [_MIRROR[type(n.ops[0])]()]
         return n
@@ -65,6 +76,14 @@ class _Canon(ast.NodeTransformer):
             if isinstance(s, ast.Pass) and len(body) > 1:
                 i += 1
                 continue
+            if len(body) > 1 and isinstance(s, ast.Expr) and isinstance(s.value, ast.Call) and isinstance(s.value.func, ast.Attribute) \
+                    and isinstance(s.value.func.value, ast.Name) and s.value.func.value.id == "runLog" and s.value.func.attr in _LOG_LEVELS and (out or i + 1 < len(body)):
+                i += 1
+                continue
+            if (fn is not None and len(body) > 1 and isinstance(s, ast.Assign) and len(s.targets) == 1 and isinstance(s.targets[0], ast.Name)
+                    and isinstance(s.value, ast.Constant) and self._dead_const_local(fn, s.targets[0].id)):
+                i += 1
+                continue
             nxt = body[i + 1] if i + 1 < len(body) else None
             if (fn is not None and isinstance(s, ast.Assign) and len(s.targets) == 1 and isinstance(s.targets[0], ast.Name) and isinstance(nxt, ast.Return)
                     and isinstance(nxt.value, ast.Name) and nxt.value.id == s.targets[0].id and self._only_returned(fn, s.targets[0].id)):
@@ -79,6 +98,16 @@ class _Canon(ast.NodeTransformer):
         if not out:
             out = [body[0]] if body else body
         return out
+
+    def _dead_const_local(self, fn, name):
+        key = ("dead", id(fn), name)
+        if key not in self._ret_cache:
+            loads = any(isinstance(x, ast.Name) and x.id == name and isinstance(x.ctx, ast.Load) for x in ast.walk(fn))
+            stores_const = all(isinstance(x, ast.Assign) and isinstance(x.value, ast.Constant) for x in ast.walk(fn)
+                               if isinstance(x, (ast.Assign, ast.AugAssign, ast.AnnAssign, ast.For)) and any(isinstance(t, ast.Name) and t.id == name for t in ast.walk(x) if isinstance(t, ast.Name) and isinstance(t.ctx, ast.Store)))
+            glob = any(isinstance(x, (ast.Global, ast.Nonlocal)) and name in x.names for x in ast.walk(fn))
+            self._ret_cache[key] = (not loads) and stores_const and not glob
+        return self._ret_cache[key]
 
     def _only_returned(self, fn, name):
         """every read of `name` in fn is `return name` directly after a plain `name = e` (so each pair can be inlined)"""
